@@ -38,6 +38,15 @@ ExpectedStatements(comments, owner, tables, enums) ==
     LET kept == SelectSeq(comments, LAMBDA c : ~IsSelectKey(c)) IN
     [i \in 1..Len(kept) |-> ExpandConstraint(kept[i], owner, tables, enums)]
 
+(* ---- guard fields (tag gomacro-sql-guard:"<value>"): a default and an equality CHECK on the value, in which only
+   the #[Type.Const] placeholders are expanded - the value is a literal, no word of it is a table name *)
+ExpectedGuardStatements(guards, owner, enums) ==
+    LET one(g) == << <<"ALTER", "TABLE", TableName(owner), "ALTER", "COLUMN", g.field, "SET", "DEFAULT">> \o ExpandEnums(g.value, enums),
+                     <<"ALTER", "TABLE", TableName(owner), "ADD", "CHECK", "(", g.field, "=">> \o ExpandEnums(g.value, enums) \o <<")">> >>
+        RECURSIVE all(_)
+        all(gs) == IF gs = <<>> THEN <<>> ELSE one(Head(gs)) \o all(Tail(gs)) IN
+    all(guards)
+
 (* ---- custom queries:  Name  <sql with $name$ placeholders> *)
 RECURSIVE PlaceholderNames(_, _)
 (* distinct $name$ in order of first occurrence *)
